@@ -38,6 +38,7 @@ func init() {
 			{ID: "C03.R6", Doc: "order of signal updates in terminate and in the error/cancel/half-close transitions", Run: c03r6},
 			{ID: "C03.R7", Doc: "HandlePacket handles every Kind constant; unknown kinds are an error only without the control bit", Run: c03r7},
 			{ID: "C03.R8", Doc: "a terminal call that emits a packet holds Stream.write while it makes the (possibly terminating) state change, so the stream cannot finish before the packet is written", Run: c03r8},
+			{ID: "C03.S1", Doc: "terminal calls take the stream's locks in one order", Alias: "C04.W2"},
 			{ID: "C03.R9", Doc: "inspectMutex: the held flag is written only while the embedded mutex is held (set after Lock, cleared before Unlock)", Run: c03r9},
 		},
 	})
@@ -261,7 +262,7 @@ func c03r3(c *an.Ctx) {
 	fl := a.obj("drpcwire", "(*Writer).Flush")
 	rw := c.Fn("drpcstream", "(*Stream).rawWriteLocked")
 	// typestate: which signals have been tested (false) since the last WriteFrame
-	flow := &an.Flow{Fn: rw, Init: []string{""},
+	flow := &an.Flow{Fn: rw, Inline: an.InlineSamePackage(rw), Init: []string{""},
 		Step: func(st string, in ssa.Instruction) []string {
 			if ci, ok := in.(ssa.CallInstruction); ok && an.IsCallTo(ci.Common(), wf) {
 				return []string{""}
@@ -390,7 +391,7 @@ func c03r4(c *an.Ctx) {
 				}
 				return nil
 			}
-			flow := &an.Flow{Fn: fn, Init: []string{"idle"},
+			flow := &an.Flow{Fn: fn, Inline: an.InlineSamePackage(fn), Init: []string{"idle"},
 				Step: func(st string, in ssa.Instruction) []string {
 					if ci, ok := in.(ssa.CallInstruction); ok {
 						if _, isGo := in.(*ssa.Go); isGo {
